@@ -12,7 +12,7 @@ from sx.harness import Shape, under, zv
 from sx.pipe import PipeCase, Sym, Outcome, line_infos, _patch_capture, _captured_lines, _reset_defaults
 
 
-def base_config(endian='big', address_size=16, registers=('a', 'b'), **general):
+def base_config(endian='big', address_size=16, registers=('ra', 'rb'), **general):
     g = {'address_size': address_size, 'endian': endian, 'registers': list(registers), 'min_version': '0.4.0'}
     g.update(general)
     return {
